@@ -112,6 +112,7 @@ fn bytes_of(v: &Value) -> Vec<u8> {
 }
 
 struct Obs {
+    dangling: usize,
     total: usize,
     stable: usize,
     nsl: usize,
@@ -120,22 +121,42 @@ struct Obs {
     lens: Vec<usize>,
 }
 
+thread_local! {
+    /// address range of the buffer the harness lends to the codec in the current phase
+    static LENT: std::cell::Cell<(usize, usize)> = const { std::cell::Cell::new((0, 0)) };
+}
+
+/// Is [addr, addr+len) inside a live arena chunk (registry of hook H2) or the lent input buffer?
+fn is_live(addr: usize, len: usize, chunks: &[(u64, usize, usize)]) -> bool {
+    if len == 0 {
+        return true;
+    }
+    let (b, l) = LENT.with(|c| c.get());
+    if addr >= b && addr + len <= b + l {
+        return true;
+    }
+    chunks.iter().any(|(_, base, clen)| addr >= *base && addr + len <= base + clen)
+}
+
 fn observe(c: &ConsumingIovec<'_>, full: bool) -> Obs {
     let sp = c.stable_prefix();
+    let chunks = owning_iovec::verif::live_chunks();
+    let dangling = sp.iter().filter(|s| !is_live(s.as_ptr() as usize, s.len(), &chunks)).count();
     let mut sb = Vec::new();
     let mut stable = 0;
     let mut lens = Vec::new();
     for s in sp {
         stable += s.len();
         lens.push(s.len());
-        if full {
+        if full && dangling == 0 {
             sb.extend_from_slice(s);
         }
     }
-    Obs { total: c.total_size(), stable, nsl: sp.len(), pending: c.has_pending_backrefs(), sb, lens }
+    Obs { dangling, total: c.total_size(), stable, nsl: sp.len(), pending: c.has_pending_backrefs(), sb, lens }
 }
 
 fn put_obs(o: &mut Map<String, Value>, ob: &Obs, full: bool) {
+    o.insert("dangling".into(), json!(ob.dangling));
     o.insert("total".into(), json!(ob.total));
     o.insert("stable".into(), json!(ob.stable));
     o.insert("nsl".into(), json!(ob.nsl));
@@ -158,6 +179,7 @@ fn run_phase<'a, C: Codec<'a>>(
 ) -> Option<Vec<u8>> {
     let mut pos = 0usize;
     let mut all: Vec<u8> = Vec::new();
+    LENT.with(|c| c.set((input.as_ptr() as usize, input.len())));
     for op in ops.by_ref() {
         let ev = gets(op, "ev");
         let mut e = Map::new();
@@ -189,7 +211,7 @@ fn run_phase<'a, C: Codec<'a>>(
                 e.insert("err".into(), json!(err));
                 e.insert("panic".into(), json!(pan));
                 if !pan.is_empty() {
-                    put_obs(&mut e, &Obs { total: 0, stable: 0, nsl: 0, pending: false, sb: vec![], lens: vec![] }, full);
+                    put_obs(&mut e, &Obs { dangling: 0, total: 0, stable: 0, nsl: 0, pending: false, sb: vec![], lens: vec![] }, full);
                     out.emit(&Value::Object(e));
                     return None;
                 }
@@ -197,14 +219,34 @@ fn run_phase<'a, C: Codec<'a>>(
                     Ok(ob) => put_obs(&mut e, &ob, full),
                     Err(p) => {
                         e.insert("panic".into(), json!(format!("accessor panic: {p}")));
-                        put_obs(&mut e, &Obs { total: 0, stable: 0, nsl: 0, pending: false, sb: vec![], lens: vec![] }, full);
+                        put_obs(&mut e, &Obs { dangling: 0, total: 0, stable: 0, nsl: 0, pending: false, sb: vec![], lens: vec![] }, full);
                         out.emit(&Value::Object(e));
                         return None;
                     }
                 }
                 out.emit(&Value::Object(e));
                 if !err.is_empty() {
-                    // rejected: the stream is dead, report the verdict
+                    // rejected.  What was decoded so far stays readable through the consumer: look at it
+                    // once more after the arena moved on (a legitimate public operation)
+                    let mut e2 = Map::new();
+                    e2.insert("run".into(), json!(run));
+                    e2.insert("ev".into(), json!("flush"));
+                    e2.insert("ph".into(), json!(phase));
+                    e2.insert("panic".into(), json!(""));
+                    let r = guarded(|| {
+                        c.consumer().arena().flush_cache();
+                        c.consumer().arena().ensure_capacity(5000);
+                        observe(&c.consumer(), full)
+                    });
+                    match r {
+                        Ok(ob) => put_obs(&mut e2, &ob, full),
+                        Err(p) => {
+                            e2.insert("panic".into(), json!(p));
+                            put_obs(&mut e2, &Obs { dangling: 0, total: 0, stable: 0, nsl: 0, pending: false, sb: vec![], lens: vec![] }, full);
+                        }
+                    }
+                    out.emit(&Value::Object(e2));
+                    // the stream is dead, report the verdict
                     out.emit(&json!({"run":run,"ev":"finish","ph":phase,"ok":0,"err":"rejected by feed","panic":"","rest":[]}));
                     return None;
                 }
@@ -222,7 +264,7 @@ fn run_phase<'a, C: Codec<'a>>(
                         e.insert("req".into(), json!([]));
                         e.insert("got".into(), json!([]));
                         e.insert("panic".into(), json!(format!("accessor panic: {p}")));
-                        put_obs(&mut e, &Obs { total: 0, stable: 0, nsl: 0, pending: false, sb: vec![], lens: vec![] }, full);
+                        put_obs(&mut e, &Obs { dangling: 0, total: 0, stable: 0, nsl: 0, pending: false, sb: vec![], lens: vec![] }, full);
                         out.emit(&Value::Object(e));
                         return None;
                     }
@@ -263,7 +305,7 @@ fn run_phase<'a, C: Codec<'a>>(
                             Ok(ob) => put_obs(&mut e, &ob, full),
                             Err(p) => {
                                 e.insert("panic".into(), json!(format!("accessor panic: {p}")));
-                                put_obs(&mut e, &Obs { total: 0, stable: 0, nsl: 0, pending: false, sb: vec![], lens: vec![] }, full);
+                                put_obs(&mut e, &Obs { dangling: 0, total: 0, stable: 0, nsl: 0, pending: false, sb: vec![], lens: vec![] }, full);
                                 out.emit(&Value::Object(e));
                                 return None;
                             }
@@ -273,11 +315,28 @@ fn run_phase<'a, C: Codec<'a>>(
                     Err(p) => {
                         e.insert("ret".into(), json!(0));
                         e.insert("panic".into(), json!(p));
-                        put_obs(&mut e, &Obs { total: 0, stable: 0, nsl: 0, pending: false, sb: vec![], lens: vec![] }, full);
+                        put_obs(&mut e, &Obs { dangling: 0, total: 0, stable: 0, nsl: 0, pending: false, sb: vec![], lens: vec![] }, full);
                         out.emit(&Value::Object(e));
                         return None;
                     }
                 }
+            }
+            "flush" => {
+                e.insert("panic".into(), json!(""));
+                let r = guarded(|| {
+                    c.consumer().arena().flush_cache();
+                    observe(&c.consumer(), full)
+                });
+                match r {
+                    Ok(ob) => put_obs(&mut e, &ob, full),
+                    Err(p) => {
+                        e.insert("panic".into(), json!(p));
+                        put_obs(&mut e, &Obs { dangling: 0, total: 0, stable: 0, nsl: 0, pending: false, sb: vec![], lens: vec![] }, full);
+                        out.emit(&Value::Object(e));
+                        return None;
+                    }
+                }
+                out.emit(&Value::Object(e));
             }
             "finish" => {
                 // whatever input was not fed yet is fed now, by copy, so that the run is complete
